@@ -38,7 +38,7 @@ Fixpoint lexemes_eqb (a : list lexeme) (b : list (N * nat)) : bool :=
 
 (* the lexer case: the model's lexemes are the implementation's *)
 Definition lex_matches (text : list byte) (impl : list (N * nat)) : bool :=
-  match lex text with Some ls => lexemes_eqb ls impl | None => false end.
+  utf8_wf text && match lex text with Some ls => lexemes_eqb ls impl | None => false end.
 
 Fixpoint diags_eqb (a : list diag) (b : list (nat * nat * bool)) : bool :=
   match a, b with
